@@ -77,9 +77,23 @@ Proof. intros p H. cbn in H. repeat (destruct H as [<-|H]; [split; vm_compute; r
 Lemma ex_fs_ok : FsOK cbytes Z ex_fs.
 Proof. apply FsOKb_sound. vm_compute. reflexivity. Qed.
 
-(* F42: Document("text"); manifest.add_full_path("manifest.rdf") (media type ""); save *)
+(* F42: Document("text"); manifest.add_full_path("manifest.rdf") (media type ""); save.  FIXED42OFF = every repair but F42's *)
+Definition FIXED42OFF := mkFx true true true true true true true true true false.
 Definition f42_state : cfs * cdoc := fst (cstep FIXED (tmpl_fs, mkD (mkC [] [] None PZip) []) (ONew 1 99)).
 Lemma f42_refuted : exists (s : cfs * cdoc) (o1 o2 : cop),
   cPkgOKb (fst s) (snd s) = true /\
-  let s2 := fst (cstep FIXED (fst (cstep FIXED s o1)) o2) in cPkgOKb (fst s2) (snd s2) = false.
-Proof. exists f42_state, (OImport RDF (CB 9) EMPTYMT), (OSave (TBuf 7) PZip false). split; vm_compute; reflexivity. Qed.
+  (let s2 := fst (cstep FIXED42OFF (fst (cstep FIXED42OFF s o1)) o2) in cPkgOKb (fst s2) (snd s2) = false) /\
+  (let s2 := fst (cstep FIXED (fst (cstep FIXED s o1)) o2) in cPkgOKb (fst s2) (snd s2) = true).
+Proof. exists f42_state, (OImport RDF (CB 9) EMPTYMT), (OSave (TBuf 7) PZip false). repeat split; vm_compute; reflexivity. Qed.
+
+(* F35: a path-opened package without manifest.rdf; the user provides one and lists it; save.  FIXED35OFF = every repair but F35's *)
+Definition FIXED35OFF := mkFx true true true true true true true true false true.
+Definition f35_fs : cfs := [(1, FZip [(0,true,CB 44);(5,false,CS (CX 45 46 [] [47]));(2,false,CS (CX 51 52 [] [18]));(4,false,CS (CX 55 56 [] [57]));(3,false,CS (CX 58 59 [] [60]));
+                                   (1,false,CS (CX 0 0 [((-1),44);(5,22);(2,22);(4,22);(3,22)] []))])].
+Lemma f35_refuted : exists (s : cfs * cdoc) (o1 o2 : cop) (n : name),
+  (let s1 := fst (cstep FIXED35OFF s o1) in let s2 := fst (cstep FIXED35OFF s1 o2) in cview (fst s2) (snd s2) n <> cview (fst s1) (snd s1) n) /\
+  (let s1 := fst (cstep FIXED s o1) in let s2 := fst (cstep FIXED s1 o2) in cview (fst s2) (snd s2) n = cview (fst s1) (snd s1) n).
+Proof.
+  exists (fst (cstep FIXED (f35_fs, mkD (mkC [] [] None PZip) []) (OOpen 1 false))), (OImport RDF (CB 70) 71), (OSave (TBuf 7) PZip false), RDF.
+  split; [vm_compute; discriminate|vm_compute; reflexivity].
+Qed.
